@@ -66,7 +66,11 @@ static pub0_pipe *vp_mk_pipe(bool on)
 #endif
 static void vp_mk_pub(size_t np)
 {
+#if PUB_NPMIN == PUB_NPMAX
+	np = PUB_NPMAX; /* a constant: the list shape is then concrete for symbolic execution */
+#else
 	__CPROVER_assume(np >= PUB_NPMIN && np <= PUB_NPMAX);
+#endif
 	g_np = np;
 	g_s  = VP_NEW(pub0_sock);
 	nni_list_init_offset(&g_s->pipes, offsetof(pub0_pipe, node));
@@ -113,9 +117,16 @@ void h_pub0_pipe_start(void)
 }
 void h_pub0_pipe_close(void)
 {
-	void *arg; size_t idx = nondet_size_t();
+	void *arg;
 	VP_HAVOC_GHOSTS(); vp_mk_pub(nondet_size_t());
-	arg = (idx == 0 ? g_pp0 : (idx == 1 ? g_pp1 : g_pp2)); /* any pipe: attached iff its number < g_np */
+	/* case split over the pipe under contract (attached iff its number < g_np) */
+#if !defined(PUB_CLOSE_IDX) || PUB_CLOSE_IDX == 0
+	arg = g_pp0;
+#elif PUB_CLOSE_IDX == 1
+	arg = g_pp1;
+#else
+	arg = g_pp2;
+#endif
 	pub0_pipe_close(arg);
 	VP_CANARY();
 }
